@@ -346,7 +346,73 @@ func (h *c03Harness) generate(steps int, emit func(op string)) {
 			emit(op)
 		}
 	}
+	// a burst: many transfers on ONE path before any of them is relayed, then deliveries and acknowledgements in
+	// adversarial orders (shorter decimal sequences first while longer ones with the same leading digits are pending;
+	// reverse; shuffled), error acknowledgements (refunds) among them, mixed tokens
+	burstAt := -1
+	if rng.Intn(3) == 0 {
+		burstAt = []int{0, 0, 1 + rng.Intn(steps/2)}[rng.Intn(3)]
+	}
+	burst := func() {
+		c := rng.Intn(c03NChains)
+		d := other(c)
+		n := 10 + rng.Intn(16)
+		if h.r.Tier == "thorough" && rng.Intn(6) == 0 {
+			n = 100 + rng.Intn(30)
+		}
+		h.r.Count("burst")
+		var held []c03Tok
+		for _, t := range toks[c] {
+			if b := h.w.balance(c, h.w.tok[c][t.id], h.w.acc[c03AccUser]); b.Cmp(big.NewInt(int64(400*n))) > 0 {
+				held = append(held, t)
+			}
+		}
+		for i := 0; i < n; i++ {
+			t := toks[c][0]
+			if len(held) > 0 && rng.Intn(4) > 0 {
+				t = held[rng.Intn(len(held))]
+			}
+			amt := 1 + rng.Intn(40)
+			if !t.origin && d == t.oc && t.scale > 0 {
+				amt = 1 + rng.Intn(3)
+			}
+			call := []string{"n", "n", "n", "pf", "pf", "po", "ph"}[rng.Intn(7)]
+			emit(fmt.Sprintf("send %d 0 %d %d %d %d %d %d %s", c, d, t.id, amt, []int{0, 6, 7}[rng.Intn(3)], t.id, rng.Intn(4), call))
+		}
+		var ps []*c03Obs
+		for _, k := range h.keys {
+			if o := h.obs[k]; o.src == c && o.dst == d && !o.received {
+				ps = append(ps, o)
+			}
+		}
+		order := func(kind int) []*c03Obs {
+			l := append([]*c03Obs{}, ps...)
+			switch kind {
+			case 0: // ascending: 1 before 10..19, 2 before 20..
+			case 1: // descending
+				for i, j := 0, len(l)-1; i < j; i, j = i+1, j-1 {
+					l[i], l[j] = l[j], l[i]
+				}
+			default:
+				rng.Shuffle(len(l), func(i, j int) { l[i], l[j] = l[j], l[i] })
+			}
+			return l
+		}
+		for _, o := range order(rng.Intn(3)) {
+			if rng.Intn(12) > 0 { // (a few stay undelivered for the rest of the history)
+				emit(fmt.Sprintf("recv %d %d %d", o.src, o.dst, o.seq))
+			}
+		}
+		for _, o := range order([]int{0, 0, 1, 2}[rng.Intn(4)]) {
+			if o.received && rng.Intn(10) > 0 {
+				emit(fmt.Sprintf("ack %d %d %d", o.src, o.dst, o.seq))
+			}
+		}
+	}
 	for s := 0; s < steps; s++ {
+		if s == burstAt {
+			burst()
+		}
 		if rng.Intn(100) < 7 {
 			registryOp()
 			continue
